@@ -269,7 +269,7 @@ Proof.
   intros k r proxy l obs H. cbn in H.
   assert (E : role_row_ok k r l obs = role_row_ok k r l (roles_effects k r proxy l)).
   { unfold effects_eqb in H. repeat (apply andb_true_iff in H; destruct H as [H ?]).
-    unfold role_row_ok.
+    unfold role_row_ok, set_verdict, role_row_rest.
     assert (f_backend (roles_effects k r proxy l) = f_backend obs) as ->
       by (destruct (f_backend (roles_effects k r proxy l)), (f_backend obs); try discriminate; reflexivity).
     assert (f_resp (roles_effects k r proxy l) = f_resp obs) as ->
@@ -280,8 +280,7 @@ Proof.
       f_equal. apply N.eqb_eq. assumption. }
     reflexivity. }
   cbn. rewrite E. clear E H.
-  destruct r; [left; reflexivity|].
-  destruct k, proxy, l; cbn; rewrite ?N.eqb_refl; cbn; auto; right; repeat split; reflexivity.
+  destruct r, k, proxy, l; unfold role_row_ok, set_verdict, role_row_rest; cbn; rewrite ?N.eqb_refl; cbn; auto; right; repeat split; reflexivity.
 Qed.
 
 Lemma c18_sched_sound : forall l0 f0 ls a b sets,
